@@ -638,11 +638,11 @@ def main(chk: lib.Check) -> int:
     )
     chk.notes["records_by_kind"] = {}
     # ---- (A) design-level model checking
-    r = lib.tlc_design("PixelsMC", "Pixels_small.cfg", expect_actions=["PickLattice", "PickTargeted", "PickSolved", "Render", "WalkStep", "Finish"], tag="s")
+    r = lib.tlc_design("PixelsMC", "Pixels_small.cfg", expect_actions=["PickLattice", "PickTargeted", "PickSolved", "Render", "WalkStep", "Finish"], tag="s", xmx="2g")
     chk.add_model("PixelsMC/small", r, "all graphs of shapes <= 2x3/3x2 x 3 kinds x all (start,end) x all shortest paths: clauses hold for Px, FromPx(Px(m)) = m, walk has exactly one candidate")
-    r = lib.tlc_design("PixelsMC", "Pixels_deep.cfg", tag="d")
+    r = lib.tlc_design("PixelsMC", "Pixels_deep.cfg", tag="d", xmx="2g")
     chk.add_model("PixelsMC/deep", r, "shapes <= 2x2, 1x3, 3x1: additionally every one-pixel corruption of every picture is rejected by the statement's clauses; Px = PxImage")
-    r = lib.tlc_expect_violation("PixelsMC", "Pixels_nonshortest.cfg", "NeverStuck", tag="n")
+    r = lib.tlc_expect_violation("PixelsMC", "Pixels_nonshortest.cfg", "NeverStuck", tag="n", xmx="2g")
     chk.add_model("PixelsMC/nonshortest(expected violation)", r, "premise dropped: TLC exhibits a simple non-shortest path on which the ordering walk is stuck")
     if thorough:
         r = lib.tlc_design("PixelsMC", "Pixels_3x3.cfg", tag="3")
